@@ -357,9 +357,14 @@ func cmdCheck(args []string) {
 		}
 		sort.Strings(names)
 		// an obligation that discharges now is claimed, whatever an older list said
+		generated := map[string]bool{}
+		for _, o := range obs {
+			generated[baseName(o.Name)] = true
+		}
 		kept := cfg.NotClaimed[:0]
 		for _, nc := range cfg.NotClaimed {
-			if !seen[nc.Obligation] {
+			// (an entry whose obligation is no longer generated at all is dropped as well)
+			if !seen[nc.Obligation] && generated[nc.Obligation] {
 				kept = append(kept, nc)
 			}
 		}
